@@ -135,8 +135,10 @@ pub fn worker(args: &Args, w: &Worker) -> i32 {
             let mut held = Model::new();
             held.apply(&holder);
             for k in 0..all.len() {
-                let legal = super::searchrun::legal_uci(&p);
-                for c in corruptions(&all[k], &legal) {
+                // long games: corrupt the first two and the last twelve moves only
+                let corrupt_here = all.len() <= 40 || k < 2 || k + 12 >= all.len();
+                let legal = if corrupt_here { super::searchrun::legal_uci(&p) } else { vec![] };
+                for c in if corrupt_here { corruptions(&all[k], &legal) } else { vec![] } {
                     let mut bad = all.clone();
                     bad[k] = c;
                     let lines = vec![holder.clone(), position_line(&path.seed.fen, &bad, false)];
